@@ -133,8 +133,12 @@ def build_conns(conns):
 
 
 def build_pins(cls, lists, dir, inv, form):
+    from amaranth.build import Pins, PinsN, DiffPairs, DiffPairsN
     tg = [t for l in lists for t in l]
     kw = {"dir": dir, "invert": inv}
+    if form == "N" and inv:          # the PinsN / DiffPairsN spelling of invert=True
+        cls = PinsN if cls is Pins else DiffPairsN
+        kw = {"dir": dir}
     if form == "conn" and tg and all(t[0] == "c" and t[1] == tg[0][1] for t in tg):
         return cls(*[" ".join(str(t[2]) for t in l) for l in lists], conn=conn_name(tg[0][1]), **kw)
     return cls(*[" ".join(pn_str(t) for t in l) for l in lists], **kw)
@@ -268,9 +272,34 @@ def node_of(tbl, name, num):
     return None
 
 
+def err_code(e):
+    """exception CLASS (and, for ResourceError, which of its three causes) as in RunC19.enc_err"""
+    name = type(e).__name__
+    if name == "ResourceError":
+        msg = str(e)
+        if "does not exist" in msg:
+            return 6
+        if "has already been requested" in msg:
+            return 7
+        if "uses physical pin" in msg:
+            return 1
+        return 1001
+    return ERR.get(name, 1000 + sum(map(ord, name)))
+
+
+def digest(xs):
+    h = 0
+    for x in xs:
+        h = (h * 1000003 + x + 7) % 2305843009213693951
+    return h
+
+
 def run_hist(c):
     from amaranth.build.res import ResourceManager
-    mgr = ResourceManager(build_table(c["tbl"]), build_conns(c["conn"]))
+    try:
+        mgr = ResourceManager(build_table(c["tbl"]), build_conns(c["conn"]))
+    except NameError:
+        return [-1, 4, 0]
     out = []
     for name, num, d, x in c["hist"]:
         try:
@@ -278,12 +307,10 @@ def run_hist(c):
         except _Hang:
             return out + [-2]
         except Exception as e:
-            code = ERR.get(type(e).__name__)
-            if code is None:
-                return out + [-1, 1000 + sum(map(ord, type(e).__name__))]
-            out += [-1, code, len(mgr._phys_reqd), len(mgr._io_clocks)]
+            out += [-1, err_code(e), len(mgr._phys_reqd), len(mgr._io_clocks), digest(enc_state(mgr))]
             continue
-        out += [1] + enc_value(node_of(c["tbl"], name, num), val, mgr) + [len(mgr._phys_reqd), len(mgr._io_clocks)]
+        out += [1] + enc_value(node_of(c["tbl"], name, num), val, mgr) + [len(mgr._phys_reqd), len(mgr._io_clocks),
+                                                                         digest(enc_state(mgr))]
     return out + [9] + enc_state(mgr)
 
 
@@ -291,7 +318,7 @@ def run_map(c):
     from amaranth.build import Pins, Resource
     from amaranth.build.res import ResourceManager
     mgr = ResourceManager([], build_conns(c["conn"]))
-    pins = Pins(" ".join(pn_str(t) for t in c["names"]))
+    pins = build_pins(Pins, [c["names"]], "io", False, c.get("pform", "plain"))
     try:
         names = with_timer(lambda: pins.map_names(mgr._conn_pins, None), c.get("cyc", False))
     except _Hang:
@@ -302,25 +329,35 @@ def run_map(c):
 
 
 # ------------------------------------------------------------------ build plans (constraint files)
+VENDORS = ("ice40", "ecp5", "gowin", "nexus")
+
+
 def make_platform(c):
     from amaranth.vendor import SiliconBluePlatform, LatticePlatform, GowinPlatform
     res, conns = build_table(c["tbl"]), build_conns(c["conn"])
-    clk = c.get("default_clk")
-    common = dict(resources=res, connectors=conns, default_clk=None if clk is None else res_name(clk[0]))
+    clk, rst = c.get("default_clk"), c.get("default_rst")
+    common = dict(resources=res, connectors=conns, default_clk=None if clk is None else res_name(clk),
+                  default_rst=None if rst is None else res_name(rst))
     if c["vendor"] == "ice40":
         cls = type("Ice", (SiliconBluePlatform,), dict(device="iCE40HX8K", package="CT256", **common))
         return cls(toolchain="IceStorm"), ".pcf"
     if c["vendor"] == "ecp5":
         cls = type("Ecp", (LatticePlatform,), dict(device="LFE5U-25F", package="BG381", speed="6", **common))
         return cls(toolchain="Trellis"), ".lpf"
+    if c["vendor"] == "nexus":
+        cls = type("Nx", (LatticePlatform,), dict(device="LIFCL-40", package="BG400", speed="8", **common))
+        return cls(toolchain="Oxide"), ".pdc"
     cls = type("Gw", (GowinPlatform,), dict(part="GW1N-LV1QN48C6/I5", family="GW1N-1", osc_frequency=None, **common))
     return cls(toolchain="Apicula"), ".cst"
 
 
 def run_build(c):
+    """[n, code per design request (0 granted | error code)] then [-1, error] if the build is refused, else
+    [1, entries in FILE ORDER..., clocks in FILE ORDER...]; -79 marks a line of the file the parser does not know."""
     from amaranth.hdl import Elaboratable, Module, Signal, Cat
     from amaranth.lib import io
-    granted = []
+    codes = []
+    unused = {tuple(p) for p in c.get("unused", [])}
 
     class Top(Elaboratable):
         def elaborate(self, platform):
@@ -335,15 +372,16 @@ def run_build(c):
                 try:
                     val = platform.request(res_name(name), num, dir=py_dir(d), xdr=py_xdr(x))
                 except Exception as e:
-                    if type(e).__name__ not in ERR:
-                        raise
+                    codes.append(err_code(e))      # the design catches refusals; their class is compared
                     continue
-                granted.append((name, num))
-                stack = [(node_of(c["tbl"], name, num), val)]
+                codes.append(0)
+                stack = [(node_of(c["tbl"], name, num), val, [name, num])]
                 while stack:
-                    node, v = stack.pop(0)
+                    node, v, pth = stack.pop(0)
                     if node[0] == "G":
-                        stack = [(s, getattr(v, f"s{s[1]}")) for s in node[3]] + stack
+                        stack = [(s, getattr(v, f"s{s[1]}"), pth + [s[1]]) for s in node[3]] + stack
+                        continue
+                    if tuple(pth) in unused:       # requested but never buffered: not a port of the design
                         continue
                     buf = io.Buffer(v.direction, v)
                     m.submodules[f"b{k}"] = buf
@@ -358,91 +396,97 @@ def run_build(c):
                 m.d.comb += ctr.eq(Cat(*acc).xor() if acc else 5)
             return m
 
-    plat, ext = make_platform(c)
-    plan = plat.build(Top(), do_build=False)
+    try:
+        plat, ext = make_platform(c)
+    except NameError:
+        return [-1, 4, 0]
+    try:
+        plan = plat.build(Top(), do_build=False)
+    except Exception as e:
+        if type(e).__name__ not in ERR:
+            raise
+        return [len(codes)] + codes + [-1, err_code(e)]
     text = None
     for fn, content in plan.files.items():
         if fn.endswith(ext):
             text = content if isinstance(content, str) else content.decode()
-    if c.get("default_clk") is not None and (res_name(c["default_clk"][0]), c["default_clk"][1]) in plat._requested:
-        granted.append(tuple(c["default_clk"]))
-    entries, clocks = parse_constraints(c["vendor"], text)
-    # canonical order = order of granted requests, leaves depth first, p before n, bits ascending
-    order = {}
-    for gi, (name, num) in enumerate(granted):
-        for li, pth in enumerate(leaf_paths(node_of(c["tbl"], name, num), [name, num])):
-            order[tuple(pth)] = (gi, li)
-
-    def keyfn(e):
-        pth, suffix, bit = e[0], e[1], e[2]
-        return order.get(tuple(pth), (10 ** 6, 0)) + (suffix, bit)
-    entries.sort(key=keyfn)
-    out = [len(entries)]
+    entries, clocks, unknown = parse_constraints(c["vendor"], text)
+    out = [len(codes)] + codes + [1, len(entries)]
     for pth, suffix, bit, pin, attrs in entries:
         out += [pth[0], pth[1], len(pth) - 2] + pth[2:] + [suffix, bit, pin] + attrs
-    ck = sorted(clocks, key=lambda e: order.get(tuple(e[0]), (10 ** 6, 0)))
-    out.append(len(ck))
-    for pth, suffix, period in ck:
+    out.append(len(clocks))
+    for pth, suffix, period in clocks:
         out += [pth[0], pth[1], len(pth) - 2] + pth[2:] + [suffix, period]
-    return out
-
-
-def leaf_paths(node, prefix):
-    if node[0] == "L":
-        return [prefix]
-    out = []
-    for s in node[3]:
-        out += leaf_paths(s, prefix + [s[1]])
-    return out
+    return out + [-79] * unknown
 
 
 def _port_of(text):
     m = re.fullmatch(r"(\w+?)(?:\[(\d+)\])?", text)
     pth, suffix = ioport_ints(m.group(1))
     pth = pth[:2] + pth[3:]
-    return pth, suffix, -1 if m.group(2) is None else int(m.group(2))
+    return [pth, suffix, -1 if m.group(2) is None else int(m.group(2))]
+
+
+BOILERPLATE = re.compile(r"(#|//).*|BLOCK ASYNCPATHS;|BLOCK RESETPATHS;|")
 
 
 def parse_constraints(vendor, text):
-    entries, clocks, attrs = [], [], {}
+    """every line of the file must be a known constraint form (else counted in `unknown`); an attribute line must
+    directly follow the location line of the same port"""
+    entries, clocks, unknown = [], [], 0
+
+    def attach(port_text, kv):
+        nonlocal unknown
+        if not entries or entries[-1][:3] != _port_of(port_text) or entries[-1][4] != [0] and vendor != "gowin":
+            unknown += 1
+            return
+        cur = entries[-1][4]
+        entries[-1][4] = [cur[0] + len(kv)] + cur[1:] + [int(t[1:]) for p in kv for t in p]
+
+    loc = {"ice40": r"set_io (\S+) (\S+)", "ecp5": r'LOCATE COMP "(\S+)" SITE "(\S+)";',
+           "gowin": r'IO_LOC "(\S+)" (\S+);', "nexus": r"ldc_set_location -site \{(\S+)\} \[get_ports (\S+)\]"}[vendor]
     for line in text.splitlines():
         line = line.strip()
+        if BOILERPLATE.fullmatch(line):
+            continue
+        m = re.fullmatch(loc, line)
+        if m:
+            port, pin = (m.group(2), m.group(1)) if vendor == "nexus" else (m.group(1), m.group(2))
+            entries.append(_port_of(port) + [int(pin[1:]), [0]])
+            continue
         if vendor == "ice40":
-            m = re.fullmatch(r"set_io (\S+) (\S+)", line)
-            if m:
-                entries.append(list(_port_of(m.group(1))) + [int(m.group(2)[1:]), [0]])
-                continue
             m = re.fullmatch(r"set_frequency (\S+) (\S+)", line)
             if m:
                 pth, suffix, _ = _port_of(m.group(1))
                 clocks.append((pth, suffix, round(1e9 / float(m.group(2)))))
-        elif vendor == "ecp5":
-            m = re.fullmatch(r'LOCATE COMP "(\S+)" SITE "(\S+)";', line)
-            if m:
-                entries.append(list(_port_of(m.group(1))) + [int(m.group(2)[1:]), [0]])
                 continue
-            m = re.fullmatch(r'IOBUF PORT "(\S+)"((?: \w+=\w+)*);', line)
+        elif vendor == "ecp5":
+            m = re.fullmatch(r'IOBUF PORT "(\S+)"((?: \w+=\w+)+);', line)
             if m:
-                kv = [p.split("=") for p in m.group(2).split()]
-                a = [len(kv)] + [int(t[1:]) for p in kv for t in p]
-                e = [e for e in entries if e[:3] == list(_port_of(m.group(1)))]
-                e[-1][4] = a if e[-1][4] == [0] else e[-1][4] + [-78]
+                attach(m.group(1), [p.split("=") for p in m.group(2).split()])
                 continue
             m = re.fullmatch(r'FREQUENCY PORT "(\S+)" (\S+) HZ;', line)
             if m:
                 pth, suffix, _ = _port_of(m.group(1))
                 clocks.append((pth, suffix, round(1e15 / float(m.group(2)))))
-        else:
-            m = re.fullmatch(r'IO_LOC "(\S+)" (\S+);', line)
-            if m:
-                entries.append(list(_port_of(m.group(1))) + [int(m.group(2)[1:]), [0]])
                 continue
+        elif vendor == "nexus":
+            m = re.fullmatch(r"ldc_set_port -iobuf \{((?:\w+=\w+ )+)\} \[get_ports (\S+)\]", line)
+            if m:
+                attach(m.group(2), [p.split("=") for p in m.group(1).split()])
+                continue
+            m = re.fullmatch(r'create_clock -name "(\S+)" -period (\S+) \[get_ports "(\S+)"\]', line)
+            if m and m.group(1) == m.group(3):
+                pth, suffix, _ = _port_of(m.group(1))
+                clocks.append((pth, suffix, round(float(m.group(2)) * 1e6)))
+                continue
+        else:
             m = re.fullmatch(r'IO_PORT "(\S+)" (\w+)=(\w+);', line)
             if m:
-                e = [e for e in entries if e[:3] == list(_port_of(m.group(1)))]
-                cur = e[-1][4]
-                e[-1][4] = [cur[0] + 1] + cur[1:] + [int(m.group(2)[1:]), int(m.group(3)[1:])]
-    return entries, clocks
+                attach(m.group(1), [[m.group(2), m.group(3)]])
+                continue
+        unknown += 1
+    return entries, clocks, unknown
 
 
 def run_impl(c):
@@ -511,15 +555,19 @@ def g_hist(h):
     return g_list([f"(mkReq {z(n)} {z(num)} {g_dir(d)} {g_xdr(x)})" for n, num, d, x in h])
 
 
+def g_path(p):
+    return f"(({z(p[0])}, {z(p[1])}), {zlist(p[2:])})"
+
+
 def coq_term(c):
     if c["k"] == "map":
         return f"k_map {g_cm(c['conn'])} {g_list([g_pn(t) for t in c['names']])}"
     if c["k"] == "build":
-        h = list(c["hist"])
-        if c.get("default_clk") is not None:
-            h.append([c["default_clk"][0], c["default_clk"][1], "-", None])
-        return (f"k_constraints {g_tbl(c['tbl'])} {g_cm(c['conn'])} {g_hist(h)} "
-                f"{ {'ecp5': 0, 'gowin': 1, 'ice40': 2}[c['vendor']] } {blit(c['vendor'] != 'ice40')} {blit(c['vendor'] != 'gowin')}")
+        v = {"ice40": "VIce40", "ecp5": "VEcp5", "gowin": "VGowin", "nexus": "VNexus"}[c["vendor"]]
+        clk = -1 if c.get("default_clk") is None else c["default_clk"]
+        rst = -1 if c.get("default_rst") is None else c["default_rst"]
+        return (f"k_build {v} {g_tbl(c['tbl'])} {g_cm(c['conn'])} {g_hist(c['hist'])} {z(clk)} {z(rst)} "
+                f"{g_list([g_path(p) for p in c.get('unused', [])])}")
     return f"k_hist {g_tbl(c['tbl'])} {g_cm(c['conn'])} {g_hist(c['hist'])}"
 
 
@@ -580,7 +628,11 @@ def gen_leaf(rng, name, conns, npins, allow_bad, vendor=None):
         mk = lambda: gen_pn(rng, conns, npins, allow_bad)
     phys = ["D", [mk() for _ in range(w)], [mk() for _ in range(w)]] if diff else ["P", [mk() for _ in range(w)]]
     clock = rng.choice([None, None, None, 8, 10, 20, 100, 1000])
-    return ["L", name, gen_attrs(rng), phys, d, rng.random() < 0.3, clock, rng.choice(["plain", "conn"])]
+    inv = rng.random() < 0.3
+    form = rng.choice(["plain", "conn"])
+    if inv and rng.random() < 0.5:
+        form = "N"                       # PinsN(...) / DiffPairsN(...)
+    return ["L", name, gen_attrs(rng), phys, d, inv, clock, form]
 
 
 def gen_node(rng, name, depth, conns, npins, allow_bad, vendor=None):
@@ -814,7 +866,9 @@ def _rename(leaf, name):
 
 
 def small_scope_maps():
-    """all tables over entries (0,1),(0,2),(1,1) x 8 targets each (absent or one of 7)."""
+    """all tables over entries (0,1),(0,2),(1,1) x 8 targets each (absent or one of 7); each table in the dict form
+    with explicit 'J_n:k' targets and, where it applies, in the Connector(..., conn=) and the string forms;
+    the queried Pins in the explicit and, where it applies, the Pins(..., conn=) form."""
     targets = [None, ["p", 0], ["p", 1], ["c", 0, 1], ["c", 0, 2], ["c", 1, 1], ["c", 1, 2], ["c", 2, 1]]
     slots = [(0, 1), (0, 2), (1, 1)]
     names = [["c", 0, 1], ["p", 5], ["c", 0, 2], ["c", 1, 1]]
@@ -824,12 +878,28 @@ def small_scope_maps():
         for (c, k), t in zip(slots, combo):
             if t is not None:
                 ents[c].append([k, t])
-        conns = [[c, e, "dict"] for c, e in ents.items() if e]
-        for sub in (names, names[2:], names[3:]):
-            case = {"k": "map", "conn": conns, "names": sub}
-            # tables containing a connector cycle are flagged (classification; arms the safety timer)
-            case["cyc"] = has_cycle(conns)
-            out.append(case)
+        variants = [[[c, e, "dict"] for c, e in ents.items() if e]]
+        alt = []
+        for c, e in ents.items():
+            if not e:
+                continue
+            tg = [t for _, t in e]
+            if all(t[0] == "c" and t[1] == tg[0][1] for t in tg):
+                alt.append([c, e, "conn"])
+            elif all(t[0] == "p" for t in tg):
+                alt.append([c, e, "str"])
+            else:
+                alt.append([c, e, "dict"])
+        if any(a[2] != "dict" for a in alt):
+            variants.append(alt)
+        for vi, conns in enumerate(variants):
+            for sub in ((names, names[2:], names[3:], [names[0], names[2]]) if vi == 0 else (names, [names[0], names[2]])):
+                case = {"k": "map", "conn": conns, "names": sub}
+                # tables containing a connector cycle are flagged (classification; arms the safety timer)
+                case["cyc"] = has_cycle(conns)
+                if all(t[0] == "c" and t[1] == sub[0][1] for t in sub):
+                    case["pform"] = "conn"
+                out.append(case)
     return out
 
 
@@ -840,6 +910,127 @@ F5_TBL = [
     [0, ["L", 2, [], ["P", [["p", 2]]], "oe", False, 20, "plain"]],
     [1, ["L", 2, [], ["D", [["p", 0]], [["p", 3]]], "i", True, 8, "plain"]],
 ]
+
+
+def leaf_paths(node, prefix):
+    if node[0] == "L":
+        return [prefix]
+    out = []
+    for sub in node[3]:
+        out += leaf_paths(sub, prefix + [sub[1]])
+    return out
+
+
+def clock_candidates(tbl, need_clock=True):
+    return [node[1] for num, node in tbl
+            if num == 0 and node[0] == "L" and node[3][0] == "P" and len(node[3][1]) == 1
+            and (node[6] is not None or not need_clock) and node[4] in ("i", "io")]
+
+
+def gen_build_random(rng, vendor):
+    """overlapping tables: refusals inside the design, default clock sometimes not grantable (build refused)"""
+    npins = rng.randrange(4, 13)
+    conns = gen_conns(rng, npins, False)
+    tbl = gen_table(rng, rng.randrange(1, 6), npins, conns, False, vendor)
+    keys = [(node[1], num) for num, node in tbl]
+    rng.shuffle(keys)
+    hist = [[name, num, "-", None] for name, num in keys[:rng.randrange(1, len(keys) + 1)]]
+    if rng.random() < 0.3:
+        hist.append(list(rng.choice(hist)))
+    if rng.random() < 0.2:
+        hist.append([rng.randrange(0, len(RNAMES)), 3, "-", None])       # does not exist
+    clk = None
+    cands = clock_candidates(tbl)
+    if cands and rng.random() < 0.8:
+        clk = rng.choice(cands)
+        used = [p for h in hist if node_of(tbl, h[0], h[1]) for p in res_pins(node_of(tbl, h[0], h[1]), conns)]
+        clash = [clk, 0] in [h[:2] for h in hist] or set(res_pins(node_of(tbl, clk, 0), conns)) & set(used)
+        if clash and rng.random() < 0.7:     # keep a few builds that must be refused with ResourceError
+            clk = None
+    return {"k": "build", "vendor": vendor, "tbl": tbl, "conn": conns, "hist": hist, "default_clk": clk,
+            "default_rst": None, "unused": [], "cyc": False}
+
+
+def gen_build_disjoint(rng, vendor):
+    """>= 3 resources on pairwise disjoint pins (everything is granted, many constraint lines), a clocked
+    single-pin input as resource (x, 0) used as default_clk, often a default_rst, some granted ports left
+    unbuffered, chained connectors in every form, a repeated and a colliding request."""
+    nres = rng.randrange(3, 7)
+    pool = list(range(0, 40))
+    rng.shuffle(pool)
+    conns = []
+    if rng.random() < 0.6:                   # connectors over private pins; chains J1 -> J0, J2 -> J1
+        base = [pool.pop() for _ in range(3)]
+        conns.append([0, [[k + 1, ["p", base[k]]] for k in range(3)], rng.choice(["dict", "str"])])
+        if rng.random() < 0.7:
+            conns.append([1, [[k + 1, ["c", 0, k + 1]] for k in range(3)], rng.choice(["dict", "conn"])])
+            if rng.random() < 0.5:
+                conns.append([2, [[k + 1, ["c", 1, 3 - k]] for k in range(3)], rng.choice(["dict", "conn"])])
+    cpins = [["c", conns[-1][0], k + 1] for k in range(3)] if conns else []
+    rng.shuffle(cpins)
+
+    def take():
+        if cpins and rng.random() < 0.5:
+            return cpins.pop()
+        return ["p", pool.pop()]
+
+    def leaf(name, vendor_dirs=True):
+        w = rng.choice([1, 1, 2, 3])
+        diff = rng.random() < 0.3
+        d = rng.choice(["i", "o"]) if diff else rng.choice(DIRS)
+        phys = ["D", [take() for _ in range(w)], [take() for _ in range(w)]] if diff else ["P", [take() for _ in range(w)]]
+        inv = rng.random() < 0.3
+        form = "N" if inv and rng.random() < 0.5 else rng.choice(["plain", "conn"])
+        return ["L", name, gen_attrs(rng), phys, d, inv, rng.choice([None, None, 8, 10, 20, 100]), form]
+
+    names = rng.sample(range(len(RNAMES)), min(nres, len(RNAMES)))
+    tbl = []
+    # resource 0: the clock
+    clk_name = names[0]
+    tbl.append([0, ["L", clk_name, gen_attrs(rng), ["P", [take()]], rng.choice(["i", "io"]), rng.random() < 0.2,
+                    rng.choice([8, 10, 20, 100, 1000]), "plain"]])
+    rst_name = None
+    if rng.random() < 0.5:
+        rst_name = names[1]
+        tbl.append([0, ["L", rst_name, gen_attrs(rng), ["P", [take()]], "i", rng.random() < 0.5, None,
+                        rng.choice(["plain", "N"])]])
+    seen = {(n[1], num) for num, n in tbl}
+    while len(tbl) < nres:
+        key = (rng.randrange(0, len(RNAMES)), rng.choice(NUMS))
+        if key in seen:
+            continue
+        seen.add(key)
+        if rng.random() < 0.4:
+            subs = rng.sample(range(0, 5), rng.randrange(1, 4))
+            tbl.append([key[1], ["G", key[0], gen_attrs(rng), [leaf(sn) for sn in subs]]])
+        else:
+            tbl.append([key[1], leaf(key[0])])
+    design = [(n[1], num) for num, n in tbl if (n[1], num) not in ((clk_name, 0), (rst_name, 0))]
+    rng.shuffle(design)
+    hist = [[name, num, "-", None] for name, num in design]
+    r = rng.random()
+    if r < 0.15 and hist:
+        hist.append(list(rng.choice(hist)))                               # already requested
+    elif r < 0.25:
+        hist.append([clk_name, 0, "-", None])                             # the design takes the clock: build refused
+    elif r < 0.35 and hist:
+        # a resource colliding with a granted one (refused inside the design)
+        victim = node_of(tbl, hist[0][0], hist[0][1])
+        pin = res_pins(victim, conns)[0]
+        key = next(k for k in ((a, b) for a in range(len(RNAMES)) for b in NUMS) if k not in seen)
+        tbl.append([key[1], ["L", key[0], [], ["P", [list(pin)]], "io", False, None, "plain"]])
+        hist.insert(rng.randrange(1, len(hist) + 1), [key[0], key[1], "-", None])
+    unused = []
+    for name, num, _d, _x in hist:
+        node = node_of(tbl, name, num)
+        for pth in leaf_paths(node, [name, num]):
+            if rng.random() < 0.25 and pth not in unused:
+                unused.append(pth)
+    use_clk = rng.random() < 0.85
+    return {"k": "build", "vendor": vendor, "tbl": tbl, "conn": conns, "hist": hist,
+            "default_clk": clk_name if use_clk else None,
+            "default_rst": rst_name if use_clk and rng.random() < 0.8 else None,
+            "unused": unused, "cyc": False}
 
 
 def small_scope_hists():
@@ -884,31 +1075,22 @@ def gen_cases(tier, seed):
                       "hist": gen_history(rng, tbl, rng.randrange(1, 6), False, conns)})
     for i in range(250 if not thorough else 3000):
         cases.append(gen_prefix_case(rng))
-    NB = 40 if not thorough else 300
-    for vendor in ("ice40", "ecp5", "gowin"):
+    NB = 25 if not thorough else 250
+    for vendor in VENDORS:
         for i in range(NB):
-            npins = rng.randrange(4, 13)
-            conns = gen_conns(rng, npins, False)
-            tbl = gen_table(rng, rng.randrange(1, 6), npins, conns, False, vendor)
-            hist = []
-            keys = [(node[1], num) for num, node in tbl]
-            rng.shuffle(keys)
-            for name, num in keys[:rng.randrange(1, len(keys) + 1)]:
-                hist.append([name, num, "-", None])
-            if rng.random() < 0.3:
-                hist.append(list(rng.choice(hist)))
-            clk = None
-            cands = [(node[1], num) for num, node in tbl
-                     if node[0] == "L" and node[3][0] == "P" and len(node[3][1]) == 1 and node[6] is not None
-                     and node[4] in ("i", "io") and num == 0]
-            if cands and rng.random() < 0.7:
-                clk = list(rng.choice(cands))
-                # the default clock is requested by create_missing_domain after the design: it must be grantable
-                used = [p for h in hist for p in res_pins(node_of(tbl, h[0], h[1]), conns)]
-                if clk in [h[:2] for h in hist] or set(res_pins(node_of(tbl, clk[0], clk[1]), conns)) & set(used):
-                    clk = None
-            cases.append({"k": "build", "vendor": vendor, "tbl": tbl, "conn": conns, "hist": hist,
-                          "default_clk": clk, "cyc": False})
+            cases.append(gen_build_random(rng, vendor))
+        for i in range(NB + 10):
+            cases.append(gen_build_disjoint(rng, vendor))
+    # duplicate (name, number) in the resource table: NameError at construction
+    for i in range(12 if not thorough else 100):
+        npins = rng.randrange(3, 9)
+        tbl = gen_table(rng, rng.randrange(1, 5), npins, [], False)
+        num, node = rng.choice(tbl)
+        tbl.insert(rng.randrange(0, len(tbl) + 1), [num, gen_node(rng, node[1], 1, [], npins, False)])
+        if i % 4 == 0:
+            cases.append({"k": "build", "vendor": rng.choice(VENDORS), "tbl": tbl, "conn": [], "hist": [], "cyc": False})
+        else:
+            cases.append({"k": "hist", "tbl": tbl, "conn": [], "cyc": False, "hist": gen_history(rng, tbl, 2, False, [])})
     # spread the cyclic map cases over the chunks
     step = max(1, len(cases) // (len(cyc) + 1))
     for i, c in enumerate(cyc):
@@ -921,7 +1103,14 @@ def classify(c):
     if c["k"] == "map":
         return "map_names:" + ("cyclic" if c["cyc"] else "acyclic")
     if c["k"] == "build":
-        return "build:" + c["vendor"]
+        tags = []
+        if c.get("default_clk") is not None:
+            tags.append("clk")
+        if c.get("default_rst") is not None:
+            tags.append("rst")
+        if c.get("unused"):
+            tags.append("unused")
+        return "build:" + c["vendor"] + ":" + ("+".join(tags) if tags else "plain")
     tags = []
     if c.get("pfx") or prefix_pairs(c["tbl"]):
         tags.append("pfxroots")
@@ -944,12 +1133,16 @@ def nontrivial(c, obs):
         return False
     if c["k"] == "map":
         return bool(c["conn"])
-    if c["k"] == "build":
-        return obs[0] > 0
+    if c["k"] == "build":   # a constraint file with at least two location lines was rendered and parsed
+        n = obs[0]
+        return len(obs) > n + 2 and obs[n + 1] == 1 and obs[n + 2] >= 2
     granted = sum(1 for i, v in enumerate(obs) if v == 1) > 0
     return granted and (-1 in obs or bool(c["conn"]) or any(n[0] == "G" or n[3][0] == "D" for _, n in c["tbl"]))
 
 
 def explain(c):
-    return ("per request: [1, value..., |phys_reqd|, |io_clocks|] or [-1, error(1 ResourceError 2 TypeError 3 ValueError "
-            "4 NameError), |phys_reqd|, |io_clocks|]; -2 = did not return (safety timer), -3 = model fuel exhausted (never); 9 + final state")
+    return ("hist: per request [1, value..., |phys_reqd|, |io_clocks|, digest(state)] or [-1, error, |phys_reqd|, |io_clocks|, "
+            "digest(state)] with error 1 ResourceError(pin conflict) 6 ResourceError(does not exist) 7 ResourceError(already "
+            "requested) 2 TypeError 3 ValueError 4 NameError; -2 = did not return (safety timer), -3 = model fuel exhausted "
+            "(never); 9 + final state; [-1,4,0] = NameError constructing the manager. build: [n, code per design request, "
+            "-1 error | 1 entries(file order) clocks(file order)], -79 = unparsed line in the constraint file")
